@@ -422,6 +422,8 @@ impl WriteBuffer {
                     continue;
                 }
 
+                #[cfg(feature = "verif")]
+                crate::verif::wait_until("lock_pending", &|| !retirement_queue.pending.is_locked());
                 let retirements_pending = !retirement_queue.pending.lock().is_empty();
                 for (worker_id, channel) in worker_channels.iter().enumerate() {
                     let pending = (worker_id..sharded_buffers.len())
@@ -805,6 +807,8 @@ fn flush_pending_deletions(
     crate::verif::wait_until("lock_retire", &|| !retirement_queue.flush.is_locked());
     let _flush_guard = retirement_queue.flush.lock();
     let delete_operations = {
+        #[cfg(feature = "verif")]
+        crate::verif::wait_until("lock_pending", &|| !retirement_queue.pending.is_locked());
         let mut pending = retirement_queue.pending.lock();
         if pending.is_empty() {
             return Ok(false);
@@ -830,6 +834,8 @@ fn flush_pending_deletions(
     }
     let has_retries = !retries.is_empty();
     if has_retries {
+        #[cfg(feature = "verif")]
+        crate::verif::wait_until("lock_pending", &|| !retirement_queue.pending.is_locked());
         retirement_queue.pending.lock().extend(retries);
     }
     result.map(|_| has_retries)
@@ -918,6 +924,8 @@ fn process_deletions(
     if !releasable.is_empty() {
         crate::verif::point("d_release", releasable.len() as u64, 0);
     }
+    #[cfg(feature = "verif")]
+    crate::verif::wait_until("lock_free_space", &|| !free_space.is_locked());
     let mut free_space_guard = free_space.write();
     let mut group = Vec::with_capacity(releasable.len());
     let mut group_end = 0;
@@ -1049,6 +1057,10 @@ fn process_write_batch(
 
     let stamp = format_version >= SEQ_TOKEN_MIN_VERSION;
     let has_deletions = !delete_operations.is_empty();
+    #[cfg(feature = "verif")]
+    if has_deletions {
+        crate::verif::wait_until("lock_pending", &|| !retirement_queue.pending.is_locked());
+    }
     if has_deletions {
         retirement_queue
             .pending
@@ -1057,6 +1069,8 @@ fn process_write_batch(
     }
 
     if !prepared_writes.is_empty() {
+        #[cfg(feature = "verif")]
+        crate::verif::wait_until("lock_free_space", &|| !free_space.is_locked());
         let mut free_space_guard = free_space.write();
         for index in 0..prepared_writes.len() {
             let sectors_needed = prepared_writes[index].sectors_needed;
@@ -1331,6 +1345,8 @@ fn release_allocations(
     stats: &Statistics,
 ) -> Result<()> {
     let mut first_error = None;
+    #[cfg(feature = "verif")]
+    crate::verif::wait_until("lock_free_space", &|| !free_space.is_locked());
     let mut free_space_guard = free_space.write();
     for allocation in allocations {
         let Some(sector) = allocation.sector else {
@@ -1398,6 +1414,8 @@ fn cleanup_failed_allocations(
 
     #[cfg(feature = "verif")]
     crate::verif::point("w_scrubbed", 0, 0);
+    #[cfg(feature = "verif")]
+    crate::verif::wait_until("lock_free_space", &|| !free_space.is_locked());
     let mut free_space = free_space.write();
     release_scrubbed_allocations(&mut free_space, allocations, stats)
 }
